@@ -138,19 +138,61 @@ def run_unit(u, repo=None, keep_trace=True):
             raise Undecided("goto-instrument failed on %s: %s" % (u.name, (p.stdout + p.stderr).decode()[-800:]))
     else:
         gb1 = gb0
-    cmd = ["cbmc", gb1, "--json-ui", "--trace"] + u.checks + u.cbmc_args
+    base_cmd = ["cbmc", gb1, "--json-ui", "--trace"] + u.checks + u.cbmc_args
     if u.unwind is not None:
-        cmd += ["--unwind", str(u.unwind), "--unwinding-assertions"]
+        base_cmd += ["--unwind", str(u.unwind), "--unwinding-assertions"]
     if u.object_bits:
-        cmd += ["--object-bits", str(u.object_bits)]
-    if u.backend == "cvc5":
-        cmd += ["--cvc5"]
-    elif u.backend == "z3":
-        cmd += ["--z3"]
-    elif u.backend == "kissat":
-        cmd += ["--external-sat-solver", "kissat"]
-    t0 = time.time()
-    p, solver_s = _run(cmd, min(u.timeout, int(os.environ.get("VERIF_TIMEOUT_CAP", "100000"))), log)
+        base_cmd += ["--object-bits", str(u.object_bits)]
+    BACK = {"sat": [], "cvc5": ["--cvc5"], "z3": ["--z3"], "kissat": ["--external-sat-solver", "kissat"]}
+    backends = u.backend if isinstance(u.backend, (list, tuple)) else [u.backend]
+    tmo = min(u.timeout, int(os.environ.get("VERIF_TIMEOUT_CAP", "100000")))
+    if len(backends) == 1:
+        cmd = base_cmd + BACK[backends[0]]
+        p, solver_s = _run(cmd, tmo, log)
+        used = backends[0]
+    else:
+        # portfolio: the same query on several back ends in parallel; the first to answer decides
+        t0 = time.time()
+        procs = []
+        for b in backends:
+            c = base_cmd + BACK[b]
+            fo = open(base + ".portfolio." + b + ".out", "wb")
+            procs.append((b, c, subprocess.Popen(c, stdout=fo, stderr=subprocess.DEVNULL, preexec_fn=_limits), fo))
+        done = None
+        import selectors
+        while time.time() - t0 < tmo and done is None:
+            for b, c, pr, fo in procs:
+                if pr.poll() is not None:
+                    fo.flush()
+                    o, e = open(fo.name, "rb").read(), b""
+                    try:
+                        js_try = json.loads(o.decode(errors="replace"))
+                        if any("result" in it for it in js_try):
+                            done = (b, c, o, e, pr.returncode)
+                            break
+                    except Exception:
+                        pass
+            if done is None:
+                if all(pr.poll() is not None for _, _, pr, _ in procs):
+                    break
+                time.sleep(0.2)
+        for b, c, pr, fo in procs:
+            if pr.poll() is None:
+                pr.kill()
+                pr.wait()
+            fo.close()
+        if done is None:
+            raise Undecided("timeout after %ds on every back end %s: %s" % (tmo, list(backends), " ".join(base_cmd[:3])))
+        used, cmd, o, e, rc = done
+        solver_s = time.time() - t0
+        with open(log, "ab") as f:
+            f.write(("$ [portfolio winner %s] " % used + " ".join(cmd) + "\n").encode())
+            f.write(o[-200000:] if len(o) > 400000 else o)
+
+        class _P:
+            pass
+        p = _P()
+        p.stdout, p.stderr, p.returncode = o, e, rc
     out = p.stdout.decode(errors="replace")
     try:
         js = json.loads(out)
@@ -170,11 +212,20 @@ def run_unit(u, repo=None, keep_trace=True):
         raise Undecided("cbmc ignored a construct in %s: %s" % (u.name, ignoring[0]))
     total = len(results)
     failed = [r for r in results if r["status"] != "SUCCESS"]
+    # reachability guards: `canary.reach` at the end of the harness and any `cover.<name>` assertion
+    # (written as assert(!situation)) MUST fail, i.e. the situation is reachable under the preconditions
+    def is_guard(r):
+        d = r.get("description", "")
+        return "canary.reach" in d or d.startswith("cover.")
     canary = [r for r in failed if "canary.reach" in r.get("description", "")]
-    real_failed = [r for r in failed if "canary.reach" not in r.get("description", "")]
+    covers_all = [r for r in results if r.get("description", "").startswith("cover.")]
+    covers_unreached = [r for r in covers_all if r["status"] == "SUCCESS"]
+    if covers_unreached:
+        raise Undecided("vacuity guard: situation %r is not reachable under the unit's preconditions" % covers_unreached[0]["description"])
+    real_failed = [r for r in failed if not is_guard(r)]
     if not u.no_canary and not canary:
         raise Undecided("vacuity guard: canary assertion at the end of %s was not reachable/failing" % u.entry)
-    n_oblig = total - len([r for r in results if "canary.reach" in r.get("description", "")])
+    n_oblig = total - len([r for r in results if is_guard(r)])
     if n_oblig <= 0:
         raise Undecided("vacuity guard: zero obligations in %s" % u.name)
     descs = [r.get("property", "") + " " + r.get("description", "") for r in results]
@@ -188,7 +239,7 @@ def run_unit(u, repo=None, keep_trace=True):
         "discharged": n_oblig - len(real_failed),
         "solver_s": round(solver_s, 2),
         "wall_s": round(time.time() - t_start, 2),
-        "backend": {"sat": "cbmc built-in SAT (minisat2/cadical)", "cvc5": "cvc5 (SMT2)", "z3": "z3 (SMT2)", "kissat": "kissat (external SAT)"}[u.backend],
+        "backend": {"sat": "cbmc built-in SAT (minisat2/cadical)", "cvc5": "cvc5 (SMT2)", "z3": "z3 (SMT2)", "kissat": "kissat (external SAT)"}[used] + (" [portfolio %s]" % "/".join(backends) if len(backends) > 1 else ""),
         "bounded": u.bounded,
         "functions": [{"where": pc.ident(), "sha": pc.sha} for pc in ctx.pieces],
         "enforce": u.enforce,
@@ -199,7 +250,8 @@ def run_unit(u, repo=None, keep_trace=True):
         "rules": len(ctx.report),
         "canary": "reach assertion FAILED as required" if canary else "disabled",
         "cmd": " ".join(cmd),
-        "sample_obligations": [d for d in descs if "canary" not in d][:3],
+        "sample_obligations": [d for d in descs if "canary" not in d and " cover." not in d][:3],
+        "covers_reached": [r.get("description", "") for r in covers_all],
         "failed": [],
         "cfile": cfile,
     }
